@@ -77,7 +77,7 @@ class Ctx:
         assert self.cur is not None
         if isinstance(unit, Unit):
             mod, qn = unit.module, unit.qualname
-            line = getattr(node, 'lineno', None) or getattr(node, 'line', None) or unit.node.lineno
+            line = getattr(node, 'orig_lineno', None) or getattr(node, 'lineno', None) or getattr(node, 'line', None) or unit.node.lineno
             site = f'{mod}:{line} {qn}'
         else:
             mod, qn, site = '', unit, unit
